@@ -1903,6 +1903,8 @@ impl<'a> Evaluator<'a> {
                         },
                         "to_lowercase" => return Ok(Val::Str(st.to_lowercase())),
                         "chars" => return Ok(Val::List(st.chars().map(Val::Char).collect())),
+                        "split_whitespace" | "split_ascii_whitespace" => return Ok(Val::List(st.split_whitespace().map(|w| Val::Str(w.to_string())).collect())),
+                        "lines" => return Ok(Val::List(st.lines().map(|w| Val::Str(w.to_string())).collect())),
                         "replace" => {
                             let a = self.eval(&mc.args[0], env)?;
                             let b = self.eval(&mc.args[1], env)?;
